@@ -143,3 +143,390 @@ Proof.
     destruct (transform_tree_ok c cfg None true false []) as [[[c' pd] pth] E]. rewrite E. cbn [bind].
     destruct IH as [r' Er]. rewrite Er. cbn [bind]. eexists. reflexivity.
 Qed.
+
+(* ---------------------------------------------------------------- 2. the module-lifetime cache *)
+(* an entry is coherent when it equals what get_bem_data would compute from the node's attributes now *)
+Definition coherent (p : pnode) : Prop :=
+  match pn_cache p with
+  | None => True
+  | Some d => d = parse_bem (class_value_of (pn_attrs p))
+  end.
+Definition same_attrs (p q : list pnode) : Prop := map pn_attrs p = map pn_attrs q.
+(* two cache states of the same path, both coherent *)
+Definition R (p q : list pnode) : Prop := same_attrs p q /\ Forall coherent p /\ Forall coherent q.
+Definition uncached (path : list pnode) : list pnode := map (fun p => mkP (pn_attrs p) None) path.
+
+Lemma coherent_data : forall p, coherent p ->
+  get_bem_data (pn_attrs p) (pn_cache p) = parse_bem (class_value_of (pn_attrs p)).
+Proof. intros [a [d|]] H; cbn in *; [subst; reflexivity|reflexivity]. Qed.
+
+Lemma coherent_fresh : forall a d, d = get_bem_data a None -> coherent (mkP a (Some d)).
+Proof. intros a d ->. reflexivity. Qed.
+
+Lemma R_uncached : forall p, Forall coherent p -> R p (uncached p).
+Proof.
+  intros p H. split; [|split; [exact H|]].
+  - unfold same_attrs, uncached. rewrite map_map. reflexivity.
+  - unfold uncached. apply Forall_forall. intros x Hx. apply in_map_iff in Hx. destruct Hx as [y [<- _]]. exact I.
+Qed.
+
+Lemma same_attrs_length : forall p q, same_attrs p q -> length p = length q.
+Proof. intros p q H. unfold same_attrs in H. apply (f_equal (@length _)) in H. rewrite !map_length in H. exact H. Qed.
+
+Lemma same_attrs_nth : forall p q ix, same_attrs p q ->
+  match nth_error p ix, nth_error q ix with
+  | Some a, Some b => pn_attrs a = pn_attrs b
+  | None, None => True
+  | _, _ => False
+  end.
+Proof.
+  induction p as [|a p IH]; intros [|b q] ix H; try discriminate.
+  - destruct ix; exact I.
+  - inversion H. destruct ix as [|k]; cbn [nth_error]; [assumption|]. apply IH. assumption.
+Qed.
+
+Lemma set_nth_length : forall A ix (x : A) l, length (set_nth ix x l) = length l.
+Proof. intros A ix x l. revert ix. induction l as [|a l IH]; intros [|k]; cbn [set_nth length]; auto. Qed.
+
+Lemma set_nth_attrs : forall path ix p0 p, nth_error path ix = Some p0 -> pn_attrs p = pn_attrs p0 ->
+  map pn_attrs (set_nth ix p path) = map pn_attrs path.
+Proof.
+  induction path as [|a path IH]; intros [|k] p0 p H E; cbn [nth_error] in H; try discriminate.
+  - inversion H; subst. cbn [set_nth map]. rewrite E. reflexivity.
+  - cbn [set_nth map]. f_equal. eapply IH; eauto.
+Qed.
+
+Lemma set_nth_attrs' : forall path ix p0 d, nth_error path ix = Some p0 ->
+  map pn_attrs (set_nth ix (mkP (pn_attrs p0) d) path) = map pn_attrs path.
+Proof. intros. eapply set_nth_attrs; eauto. Qed.
+
+Lemma set_nth_Forall : forall (P : pnode -> Prop) path ix p, Forall P path -> P p -> Forall P (set_nth ix p path).
+Proof.
+  intros P. induction path as [|a path IH]; intros [|k] p HF Hp; cbn [set_nth]; auto;
+    inversion HF; subst; constructor; auto.
+Qed.
+
+Lemma nth_error_Forall : forall (P : pnode -> Prop) path ix p, Forall P path -> nth_error path ix = Some p -> P p.
+Proof. intros P path ix p HF H. rewrite Forall_forall in HF. apply HF. eapply nth_error_In; eauto. Qed.
+
+(* one round of the while loop of get_block_name *)
+Definition gbn_step (path : list pnode) (ix : nat) : option str * list pnode :=
+  match get_item path ix with
+  | Some p =>
+      let d := get_bem_data (pn_attrs p) (pn_cache p) in
+      (truthy_str (bd_block d), set_nth ix (mkP (pn_attrs p) (Some d)) path)
+  | None => (None, path)
+  end.
+Lemma gbn_loop_unfold : forall path ix,
+  gbn_loop path ix =
+    let '(found, path1) := gbn_step path ix in
+    match found with
+    | Some b => (Some b, path1)
+    | None => match ix with O => (None, path1) | S k => gbn_loop path1 k end
+    end.
+Proof. intros path [|k]; reflexivity. Qed.
+
+Lemma gbn_step_R : forall p q ix, R p q ->
+  fst (gbn_step p ix) = fst (gbn_step q ix) /\ R (snd (gbn_step p ix)) (snd (gbn_step q ix))
+  /\ same_attrs (snd (gbn_step p ix)) p.
+Proof.
+  intros p q ix [HS [HP HQ]]. unfold gbn_step, get_item.
+  pose proof (same_attrs_nth p q ix HS) as HN.
+  destruct (nth_error p ix) as [a|] eqn:EA; destruct (nth_error q ix) as [b|] eqn:EB; try contradiction.
+  - pose proof (nth_error_Forall _ _ _ _ HP EA) as CA. pose proof (nth_error_Forall _ _ _ _ HQ EB) as CB.
+    rewrite (coherent_data a CA), (coherent_data b CB). cbn [fst snd]. split; [rewrite HN; reflexivity|].
+    split; [split; [|split]|].
+    + unfold same_attrs. rewrite (set_nth_attrs' p ix a _ EA), (set_nth_attrs' q ix b _ EB). exact HS.
+    + apply set_nth_Forall; [exact HP|]. apply coherent_fresh. reflexivity.
+    + apply set_nth_Forall; [exact HQ|]. apply coherent_fresh. reflexivity.
+    + unfold same_attrs. apply (set_nth_attrs' p ix a _ EA).
+  - cbn [fst snd]. split; [reflexivity|]. split; [split; [|split]; assumption|reflexivity].
+Qed.
+
+Lemma same_attrs_trans : forall a b c, same_attrs a b -> same_attrs b c -> same_attrs a c.
+Proof. unfold same_attrs. intros. congruence. Qed.
+
+(* the loop: same block found, whatever the (coherent) cache state; attributes untouched; coherence kept *)
+Lemma gbn_loop_R : forall ix p q, R p q ->
+  fst (gbn_loop p ix) = fst (gbn_loop q ix) /\ R (snd (gbn_loop p ix)) (snd (gbn_loop q ix))
+  /\ same_attrs (snd (gbn_loop p ix)) p.
+Proof.
+  induction ix as [|k IH]; intros p q HR; rewrite !gbn_loop_unfold;
+    match goal with |- context [gbn_step p ?i] =>
+      destruct (gbn_step_R p q i HR) as [E [HR1 HS1]];
+      destruct (gbn_step p i) as [fp p1]; destruct (gbn_step q i) as [fq q1] end;
+    cbn [fst snd] in *; subst fq; destruct fp as [b|]; cbn [fst snd]; auto.
+  destruct (IH p1 q1 HR1) as [E2 [HR2 HS2]]. split; [exact E2|]. split; [exact HR2|].
+  eapply same_attrs_trans; eauto.
+Qed.
+
+Lemma get_block_name_R : forall p q depth ctx, R p q ->
+  fst (get_block_name p depth ctx) = fst (get_block_name q depth ctx)
+  /\ R (snd (get_block_name p depth ctx)) (snd (get_block_name q depth ctx))
+  /\ same_attrs (snd (get_block_name p depth ctx)) p.
+Proof.
+  intros p q depth ctx HR. unfold get_block_name.
+  rewrite <- (same_attrs_length p q (proj1 HR)).
+  destruct (gbn_loop_R (length p - depth) p q HR) as [E [HR1 HS1]].
+  destruct (gbn_loop p _) as [fp p1]; destruct (gbn_loop q _) as [fq q1]. cbn [fst snd] in *. subst fq.
+  destruct fp as [b|]; [cbn [fst snd]; auto|].
+  destruct ctx as [cls|]; [|cbn [fst snd]; auto].
+  destruct (truthy_str (bd_block (parse_bem cls))); cbn [fst snd]; auto.
+Qed.
+
+(* CACHE TRANSPARENCY for get_block_name: on a coherent path the block name is the one the cache-free reading gives *)
+Theorem get_block_name_transparent : forall path depth ctx, Forall coherent path ->
+  fst (get_block_name path depth ctx) = fst (get_block_name (uncached path) depth ctx)
+  /\ Forall coherent (snd (get_block_name path depth ctx))
+  /\ map pn_attrs (snd (get_block_name path depth ctx)) = map pn_attrs path.
+Proof.
+  intros path depth ctx H. destruct (get_block_name_R path (uncached path) depth ctx (R_uncached path H)) as [E [[_ [HC _]] HS]].
+  auto.
+Qed.
+
+(* expand_short_notation, one class name / all class names *)
+Lemma esn_class_R : forall cfg p q cl, R p q ->
+  fst (esn_class cfg p cl) = fst (esn_class cfg q cl) /\ R (snd (esn_class cfg p cl)) (snd (esn_class cfg q cl))
+  /\ same_attrs (snd (esn_class cfg p cl)) p.
+Proof.
+  intros cfg p q cl HR. unfold esn_class.
+  destruct (re_element cl) as [[[d g2] n0]|].
+  - destruct (get_block_name_R p q d (bc_context cfg) HR) as [E [HR1 HS1]].
+    destruct (get_block_name p d _) as [b p1]; destruct (get_block_name q d _) as [b' q1]. cbn [fst snd] in *. subst b'.
+    destruct (re_modifier (skipn n0 cl)) as [[[d2 g3] n2]|]; [|cbn [fst snd]; auto].
+    destruct (b ++ bc_element cfg ++ g2) as [|c0 pre] eqn:EP; [|cbn [fst snd]; auto].
+    destruct (get_block_name_R p1 q1 d2 None HR1) as [E2 [HR2 HS2]].
+    destruct (get_block_name p1 d2 None) as [b2 p2]; destruct (get_block_name q1 d2 None) as [b2' q2].
+    cbn [fst snd] in *. subst b2'. split; [reflexivity|]. split; [exact HR2|]. eapply same_attrs_trans; eauto.
+  - destruct (re_modifier cl) as [[[d2 g3] n2]|]; [|cbn [fst snd]; split; [reflexivity|split; [exact HR|reflexivity]]].
+    destruct (get_block_name_R p q d2 None HR) as [E2 [HR2 HS2]].
+    destruct (get_block_name p d2 None) as [b2 p2]; destruct (get_block_name q d2 None) as [b2' q2].
+    cbn [fst snd] in *. subst b2'. auto.
+Qed.
+
+Lemma esn_loop_R : forall cfg l p q, R p q ->
+  fst (esn_loop cfg p l) = fst (esn_loop cfg q l) /\ R (snd (esn_loop cfg p l)) (snd (esn_loop cfg q l))
+  /\ same_attrs (snd (esn_loop cfg p l)) p.
+Proof.
+  intros cfg. induction l as [|cl l IH]; intros p q HR; cbn [esn_loop].
+  - cbn [fst snd]. split; [reflexivity|split; [exact HR|reflexivity]].
+  - destruct (esn_class_R cfg p q cl HR) as [E [HR1 HS1]].
+    destruct (esn_class cfg p cl) as [a p1]; destruct (esn_class cfg q cl) as [a' q1]. cbn [fst snd] in *. subst a'.
+    destruct (IH p1 q1 HR1) as [E2 [HR2 HS2]].
+    destruct (esn_loop cfg p1 l) as [b p2]; destruct (esn_loop cfg q1 l) as [b' q2]. cbn [fst snd] in *. subst b'.
+    split; [reflexivity|]. split; [exact HR2|]. eapply same_attrs_trans; eauto.
+Qed.
+
+Lemma R_app_self : forall p q a, R p q -> R (p ++ [mkP a None]) (q ++ [mkP a None]).
+Proof.
+  intros p q a [HS [HP HQ]]. split; [|split].
+  - unfold same_attrs in *. rewrite !map_app, HS. reflexivity.
+  - apply Forall_app. split; [exact HP|]. constructor; [exact I|constructor].
+  - apply Forall_app. split; [exact HQ|]. constructor; [exact I|constructor].
+Qed.
+
+Lemma Forall_firstn : forall (P : pnode -> Prop) k l, Forall P l -> Forall P (firstn k l).
+Proof.
+  intros P. induction k as [|k IH]; intros [|a l] H; cbn [firstn]; try constructor.
+  - inversion H; assumption.
+  - apply IH. inversion H; assumption.
+Qed.
+
+Lemma map_firstn : forall A B (f : A -> B) k l, map f (firstn k l) = firstn k (map f l).
+Proof. intros A B f. induction k as [|k IH]; intros [|a l]; cbn [firstn map]; auto. f_equal. apply IH. Qed.
+
+Lemma firstn_app_exact : forall A (l1 l2 : list A), firstn (length l1) (l1 ++ l2) = l1.
+Proof. intros A l1 l2. induction l1 as [|a l1 IH]; cbn [length firstn app]; [destruct l2; reflexivity|]. f_equal. exact IH. Qed.
+
+Lemma firstn_firstn_app : forall A k (l : list A) x, k <= length l -> firstn k (firstn k l ++ x) = firstn k l.
+Proof.
+  intros A k l x H. rewrite <- (firstn_length_le l H) at 1. apply firstn_app_exact.
+Qed.
+
+(* the returned path: ancestors (attributes untouched, entries possibly added) then the node itself *)
+Lemma esn_path_shape : forall cfg anc n data n' path',
+  expand_short_notation cfg anc n data = Ok (n', path') ->
+  exists path1 sc,
+    path1 = snd (esn_loop cfg (anc ++ [mkP (an_attrs n) None]) (bd_class_names data))
+    /\ path' = firstn (length anc) path1 ++ [mkP (an_attrs n') sc].
+Proof.
+  intros cfg anc n data n' path' H. unfold expand_short_notation in H.
+  destruct (esn_loop cfg (anc ++ [mkP (an_attrs n) None]) (bd_class_names data)) as [cn path1].
+  match type of H with bind ?u _ = _ => destruct u as [m| | |]; cbn [bind] in H; try discriminate end.
+  inversion H; subst. eexists _, _. split; reflexivity.
+Qed.
+
+(* CACHE TRANSPARENCY for one bem() call: two coherent cache states of the same ancestors give the SAME node;
+   the ancestors keep their attributes and stay coherent *)
+Theorem bem_R : forall cfg anc anc' n, R anc anc' ->
+  exists n' p1 p2, bem cfg anc n = Ok (n', p1) /\ bem cfg anc' n = Ok (n', p2)
+    /\ R (firstn (length anc) p1) (firstn (length anc') p2)
+    /\ map pn_attrs (firstn (length anc) p1) = map pn_attrs anc
+    /\ same_attrs p1 p2.
+Proof.
+  intros cfg anc anc' n HR. unfold bem.
+  destruct (expand_class_names_ok n) as [n1 [data [E H]]]. rewrite E. cbn [bind].
+  pose proof (same_attrs_length _ _ (proj1 HR)) as HL.
+  pose proof (esn_loop_R cfg (bd_class_names data) _ _ (R_app_self anc anc' (an_attrs n1) HR)) as [EC [HR1 HS1]].
+  destruct (expand_short_notation_ok cfg anc n1 data H) as [[n' p1] E1].
+  destruct (expand_short_notation_ok cfg anc' n1 data H) as [[n'' p2] E2].
+  assert (n'' = n').
+  { unfold expand_short_notation in E1, E2.
+    destruct (esn_loop cfg (anc ++ _) _) as [cn path1]; destruct (esn_loop cfg (anc' ++ _) _) as [cn' q1].
+    cbn [fst] in EC. subst cn'.
+    destruct (match unique cn with [] => Ok n1 | _ :: _ => update_class n1 (join [c_space] (unique cn)) end) as [m| | |];
+      cbn [bind] in E1, E2; try discriminate.
+    inversion E1; inversion E2; subst. reflexivity. }
+  subst n''. exists n', p1, p2. split; [exact E1|]. split; [exact E2|].
+  destruct (esn_path_shape _ _ _ _ _ _ E1) as [path1 [sc1 [Ep1 ->]]].
+  destruct (esn_path_shape _ _ _ _ _ _ E2) as [q1 [sc2 [Eq1 ->]]].
+  rewrite <- Ep1 in *. rewrite <- Eq1 in *. clear Ep1 Eq1.
+  destruct HR1 as [HSA [HCP HCQ]].
+  assert (LP : length anc <= length path1).
+  { rewrite (same_attrs_length _ _ HS1), app_length. lia. }
+  assert (LQ : length anc' <= length q1).
+  { rewrite <- (same_attrs_length _ _ HSA). rewrite <- HL. exact LP. }
+  rewrite (firstn_firstn_app _ _ _ _ LP), (firstn_firstn_app _ _ _ _ LQ).
+  assert (HA : map pn_attrs (firstn (length anc) path1) = map pn_attrs anc).
+  { rewrite map_firstn. unfold same_attrs in HS1. rewrite HS1, map_app.
+    rewrite <- (map_length pn_attrs anc). apply firstn_app_exact. }
+  assert (HF : same_attrs (firstn (length anc) path1) (firstn (length anc') q1)).
+  { unfold same_attrs in *. rewrite !map_firstn, HSA, HL. reflexivity. }
+  split; [|split; [exact HA|]].
+  - split; [exact HF|]. split; apply Forall_firstn; assumption.
+  - unfold same_attrs in *. rewrite !map_app, HF. reflexivity.
+Qed.
+
+(* the cache-free reading: the node a bem() call returns on a coherent path is the node it returns when every
+   cache entry is removed *)
+Corollary bem_transparent : forall cfg anc n, Forall coherent anc ->
+  exists n' p1 p2, bem cfg anc n = Ok (n', p1) /\ bem cfg (uncached anc) n = Ok (n', p2)
+    /\ Forall coherent (firstn (length anc) p1) /\ map pn_attrs (firstn (length anc) p1) = map pn_attrs anc.
+Proof.
+  intros cfg anc n H. destruct (bem_R cfg anc (uncached anc) n (R_uncached anc H)) as [n' [p1 [p2 [E1 [E2 [[_ [HC _]] [HA _]]]]]]].
+  exists n', p1, p2. auto.
+Qed.
+
+(* a node whose own entry was not created (it did not query itself) leaves a coherent path to its children;
+   by induction along the walk the whole expansion then equals the cache-free one *)
+Lemma uncached_entry_coherent : forall a, coherent (mkP a None).
+Proof. intros a. exact I. Qed.
+
+(* ... and the self query is exactly where it breaks: .b>.-e with separators "__" / "_".  The second node queries
+   its own block (depth 1), caches the data of class "-e" (no block), then becomes class "b__e": its entry is not
+   coherent, and its child .-x gets block b from it (b__x) where the cache-free reading gives b__e (b__e__x). *)
+Definition cls (s : str) : option (list aattr) := Some [mkAAttr (Some s_class) (Some [VStr s]) VRaw false false false].
+Definition nd (s : str) : anode := ANode None None None (cls s) [] false.
+Example self_query_breaks_coherence :
+  let cfg := mkBemCfg [95;95]%N [95]%N None in
+  let top := [mkP (cls [98]%N) None] in
+  exists n2 p2,
+    bem cfg top (nd [45;101]%N) = Ok (n2, p2)
+    /\ an_attrs n2 = cls [98;95;95;101]%N                                   (* b__e *)
+    /\ ~ Forall coherent p2
+    /\ (exists n3 p3, bem cfg p2 (nd [45;120]%N) = Ok (n3, p3) /\ an_attrs n3 = cls [98;95;95;120]%N)              (* b__x *)
+    /\ (exists n3 p3, bem cfg (uncached p2) (nd [45;120]%N) = Ok (n3, p3) /\ an_attrs n3 = cls [98;95;95;101;95;95;120]%N).
+Proof.
+  cbv zeta. eexists _, _. split; [vm_compute; reflexivity|].
+  split; [reflexivity|]. split.
+  - intros H. inversion H as [|? ? _ H2]; subst. inversion H2 as [|? ? H3 _]; subst.
+    vm_compute in H3. discriminate.
+  - split; eexists _, _; (split; [vm_compute; reflexivity|reflexivity]).
+Qed.
+
+(* ---------------------------------------------------------------- 3. short algebraic facts *)
+Lemma str_eqb_refl' : forall a, str_eqb a a = true.
+Proof. induction a; cbn [str_eqb]; auto. rewrite N.eqb_refl. auto. Qed.
+Lemma str_eqb_true' : forall a b, str_eqb a b = true -> a = b.
+Proof.
+  induction a as [|x a IH]; intros [|y b] H; cbn [str_eqb] in H; try discriminate; auto.
+  apply andb_true_iff in H. destruct H as [H1 H2]. apply N.eqb_eq in H1. subst. f_equal. auto.
+Qed.
+Lemma mem_str_In : forall x l, mem_str x l = true <-> In x l.
+Proof.
+  intros x l. unfold mem_str. rewrite existsb_exists. split.
+  - intros [y [Hy E]]. apply str_eqb_true' in E. subst. exact Hy.
+  - intros H. exists x. split; [exact H|apply str_eqb_refl'].
+Qed.
+
+(* unique() is idempotent ... *)
+Lemma unique_acc_idem : forall l seen, unique_acc seen (unique_acc seen l) = unique_acc seen l.
+Proof.
+  induction l as [|x l IH]; intros seen; cbn [unique_acc]; [reflexivity|].
+  destruct (mem_str x seen) eqn:M; [apply IH|].
+  cbn [unique_acc]. rewrite M. f_equal. apply IH.
+Qed.
+Theorem unique_idem : forall l, unique (unique l) = unique l.
+Proof. intros l. apply unique_acc_idem. Qed.
+
+(* ... keeps exactly the elements of the list, and has no duplicates *)
+Lemma unique_acc_In : forall l seen x, In x (unique_acc seen l) <-> In x l /\ ~ In x seen.
+Proof.
+  induction l as [|y l IH]; intros seen x; cbn [unique_acc].
+  - split; [intros []|intros [[] _]].
+  - destruct (mem_str y seen) eqn:M.
+    + rewrite IH. apply mem_str_In in M. split.
+      * intros [H1 H2]. split; [right; exact H1|exact H2].
+      * intros [[->|H1] H2]; [contradiction|]. split; assumption.
+    + assert (Hy : ~ In y seen). { intros H. apply mem_str_In in H. congruence. }
+      cbn [In]. rewrite IH. cbn [In]. split.
+      * intros [->|[H1 H2]]; [split; [left; reflexivity|exact Hy]|]. split; [right; exact H1|]. intros H. apply H2. right. exact H.
+      * intros [[->|H1] H2]; [left; reflexivity|].
+        destruct (mem_str x [y]) eqn:E.
+        -- apply mem_str_In in E. destruct E as [->|[]]. left. reflexivity.
+        -- right. split; [exact H1|]. intros [->|H]; [|contradiction].
+           cbn in E. rewrite str_eqb_refl' in E. discriminate.
+Qed.
+Theorem unique_In : forall l x, In x (unique l) <-> In x l.
+Proof. intros l x. unfold unique. rewrite unique_acc_In. split; [intros [H _]; exact H|intros H; split; [exact H|intros []]]. Qed.
+
+Lemma unique_acc_NoDup : forall l seen, NoDup (unique_acc seen l).
+Proof.
+  induction l as [|y l IH]; intros seen; cbn [unique_acc]; [constructor|].
+  destruct (mem_str y seen); [apply IH|]. constructor; [|apply IH].
+  rewrite unique_acc_In. intros [_ H]. apply H. left. reflexivity.
+Qed.
+Theorem unique_NoDup : forall l, NoDup (unique l).
+Proof. intros l. apply unique_acc_NoDup. Qed.
+
+(* a class name that is not BEM notation is kept as it is, no block lookup, no cache entry *)
+Theorem esn_class_plain : forall cfg path cl,
+  re_element cl = None -> re_modifier cl = None -> esn_class cfg path cl = ([cl], path).
+Proof. intros cfg path cl H1 H2. unfold esn_class. rewrite H1, H2, str_eqb_refl'. reflexivity. Qed.
+
+(* a node without class names (no attributes, no class attribute, empty class value) is returned unchanged *)
+Theorem bem_no_class : forall cfg anc n,
+  class_value_of (an_attrs n) = [] -> bem cfg anc n = Ok (n, anc ++ [mkP (an_attrs n) None]).
+Proof.
+  intros cfg anc n H. unfold bem, expand_class_names, get_bem_data. rewrite H.
+  change (bd_class_names (parse_bem [])) with (@nil str).
+  cbn [ecn_loop bind]. unfold expand_short_notation.
+  change (bd_class_names (parse_bem [])) with (@nil str).
+  cbn [esn_loop unique unique_acc bind].
+  rewrite firstn_app_exact. unfold get_item.
+  replace (nth_error (anc ++ [mkP (an_attrs n) None]) (length anc)) with (Some (mkP (an_attrs n) None)).
+  - reflexivity.
+  - rewrite nth_error_app2, Nat.sub_diag; [reflexivity|lia].
+Qed.
+
+(* a match of re_element / re_modifier: at least one prefix character, a non-empty name, inside the string *)
+Lemma span_le : forall p s, span p s <= length s.
+Proof. intros p. induction s as [|c s IH]; cbn [span length]; [lia|]. destruct (p c); lia. Qed.
+Theorem re_match3_bounds : forall P F Rr s d g2 n0,
+  re_match3 P F Rr s = Some (d, g2, n0) -> 1 <= d /\ g2 <> [] /\ n0 = d + length g2 /\ n0 <= length s.
+Proof.
+  intros P F Rr s d g2 n0 H. unfold re_match3 in H.
+  remember (span (in_tbl P) s) as np0 eqn:EP. destruct np0 as [|np]; [discriminate|].
+  remember (skipn (S np) s) as s1 eqn:ES1.
+  remember (span (in_tbl F) s1) as nf0 eqn:EF. destruct nf0 as [|nf]; [discriminate|].
+  remember (span (in_tbl Rr) (skipn (S nf) s1)) as nr eqn:ER.
+  assert (E : d = S np /\ g2 = firstn (S nf + nr) s1 /\ n0 = S np + (S nf + nr)) by (repeat split; congruence).
+  destruct E as [-> [-> ->]]. clear H.
+  pose proof (span_le (in_tbl P) s) as L1. rewrite <- EP in L1.
+  pose proof (span_le (in_tbl F) s1) as L2. rewrite <- EF in L2.
+  pose proof (span_le (in_tbl Rr) (skipn (S nf) s1)) as L3. rewrite <- ER, skipn_length in L3.
+  assert (LS : length s1 = length s - S np) by (subst s1; apply skipn_length).
+  assert (LEN : length (firstn (S nf + nr) s1) = S nf + nr) by (apply firstn_length_le; lia).
+  split; [lia|]. split; [|split; [rewrite LEN; reflexivity|lia]].
+  intros E. rewrite E in LEN. cbn [length] in LEN. lia.
+Qed.
